@@ -22,7 +22,7 @@ EXEC = {"STATUS", "RISKS", "DECISIONS"}
 DEV = {"TESTS", "CI", "DEPS"}
 
 
-def _doc(a, b, c, d, e, f):
+def _doc(a, b, c, d, e, f, g=2):
     from octave_mcp.core.ast_nodes import Assignment, Block, Document, HolographicValue, InlineMap, ListValue, LiteralZoneValue, Section
 
     holo = HolographicValue(example="e", constraints=None, target="T", raw_pattern='["e"∧REQ→§T]', tokens=[])
@@ -37,7 +37,7 @@ def _doc(a, b, c, d, e, f):
                 Block(key=POOL_C[d], children=[Assignment(key=POOL_A[e], value=zone), Assignment(key=POOL_B[0], value=None)]),
             ]),
             Section(section_id="1", key="SEC", children=[Assignment(key=POOL_A[f], value=holo), Block(key=POOL_B[1], children=[Assignment(key="Q", value=True)])]),
-            Assignment(key=POOL_C[2], value=InlineMap(pairs={"a": 1})),
+            Assignment(key=POOL_C[g], value=InlineMap(pairs={"a": 1})),
         ],
     )
 
@@ -153,9 +153,9 @@ def _md_keys(md):
 
 
 def _mk_project(mode_i):
-    def P_project(a: int, b: int, c: int, d: int, e: int, f: int) -> int:
+    def P_project(a: int, b: int, c: int, d: int, e: int, f: int, g: int) -> int:
         """
-        pre: 0 <= a <= 2 and 0 <= b <= 2 and 0 <= c <= 2 and 0 <= d <= 2 and 0 <= e <= 2 and 0 <= f <= 2
+        pre: 0 <= a <= 2 and 0 <= b <= 2 and 0 <= c <= 2 and 0 <= d <= 2 and 0 <= e <= 2 and 0 <= f <= 2 and 0 <= g <= 2
         post: _ != 0
         """
         from crosshair.tracers import NoTracing
@@ -164,7 +164,7 @@ def _mk_project(mode_i):
 
         global CONT
         mode = ["canonical", "authoring", "executive", "developer", "bogus"][mode_i]
-        doc = _doc(a, b, c, d, e, f)
+        doc = _doc(a, b, c, d, e, f, g)
         with NoTracing():  # every input is concrete from here (keys chosen by the solver through the indices)
             src = _ast_leaves(doc)
             CONT = _containers(doc)
@@ -226,5 +226,5 @@ def obligations(tier):
     fns = ["core.projector.project", "_filter_fields", "mcp.eject._ast_to_dict", "_convert_block", "_convert_value", "_ast_to_markdown", "_block_to_markdown", "_format_markdown_value"]
     obs = [dup_witness_ob()]
     for mi, m in enumerate(["canonical", "authoring", "executive", "developer", "unknown-mode"]):
-        obs.append(xh_ob(PROP, f"P.leaf-sets[{m}]", _mk_project(mi), timeout=1500, bound="skeleton: top-level assignment, block > (list-valued assignment, nested block > (literal zone, null)), section marker > (holographic value, block), inline-map assignment, META; 6 key sites each chosen by symbolic index from a filter key of each keep-set and a neutral key (3^6 combinations); all four formats per projection", functions=fns))
+        obs.append(xh_ob(PROP, f"P.leaf-sets[{m}]", _mk_project(mi), timeout=1500, bound="skeleton: top-level assignment, block > (list-valued assignment, nested block > (literal zone, null)), section marker > (holographic value, block), inline-map assignment, META; 7 key sites each chosen by symbolic index from a filter key of each keep-set and a neutral key (3^7 combinations, incl. the ones where every top-level node survives as a pruned wrapper); all four formats per projection", functions=fns))
     return select(obs, tier)
